@@ -1345,6 +1345,36 @@ func c13Replay(path string, model *Model, r *Result) bool {
 	return true
 }
 
+// c13DelInLoop: a map with 3-5 keys is ranged over; the body deletes keys (the current one, earlier ones, later ones, a
+// missing one; directly or through an alias), inserts, and observes with has / len / print / index of a surviving key.
+func c13DelInLoop(rng *rand.Rand) string {
+	var b strings.Builder
+	keys := []string{"a", "b", "c", "d", "e"}[:3+rng.Intn(3)]
+	b.WriteString("m := {")
+	for i, k := range keys {
+		fmt.Fprintf(&b, "%s%s:%d", map[bool]string{true: "", false: " "}[i == 0], k, i+1)
+	}
+	b.WriteString("}\nal := m\nseen := \"\"\nfor k := range m\n    seen = seen + k\n")
+	for j := 0; j < 1+rng.Intn(3); j++ {
+		tgt := []string{"m", "al"}[rng.Intn(2)]
+		switch rng.Intn(6) {
+		case 0:
+			fmt.Fprintf(&b, "    del %s k\n", tgt)
+		case 1, 2:
+			fmt.Fprintf(&b, "    del %s %q\n", tgt, keys[rng.Intn(len(keys))])
+		case 3:
+			fmt.Fprintf(&b, "    if k == %q\n        del %s %q\n        del %s %q\n    end\n", keys[0], tgt, keys[len(keys)-1], tgt, keys[1])
+		case 4:
+			fmt.Fprintf(&b, "    %s.z%d = 9\n", tgt, rng.Intn(3))
+		default:
+			fmt.Fprintf(&b, "    del %s \"nokey\"\n", tgt)
+		}
+	}
+	b.WriteString("    print \"k\" k (has m k) (len m) m\n    if (has m k)\n        print \"v\" m[k]\n    end\nend\nprint seen m al (len m)\n")
+	b.WriteString("print (join (split \",a,,b\" \",\") \",\") (sprint m)\n")
+	return b.String()
+}
+
 func runC13(cfg Config, r *Result) {
 	model, err := StartModel("builtins")
 	if err != nil {
@@ -1360,6 +1390,15 @@ func runC13(cfg Config, r *Result) {
 	}
 	for _, c := range c13Corpus() {
 		c13Check(c, model, r)
+	}
+	// built-ins in interaction with the statement they are documented with: `del` "is safe while iterating with a
+	// for ... range loop" (current, earlier and LATER keys, through aliases, with has / len / print in the body), join of
+	// split, sprint of a map being ranged - decided by the evaluator model (coq/Sem.v, which calls Builtins.v)
+	if sem := startSem(r); sem != nil {
+		for i := 0; i < cfg.N(120, 2500); i++ {
+			semCase(sem, r, c13DelInLoop(cfg.Rng), SemOpts{StopAt: -1, YieldBudget: 50000}, true, "del-in-loop:")
+		}
+		sem.Close()
 	}
 	// exhaustive small sweeps: every string function on all pairs of a small
 	// alphabet of strings; every numeric function on every boundary number
